@@ -172,7 +172,7 @@ Lemma read_exact_ndrop n pos (data : list byte) :
   if pos + n <=? nlen data then Ok (ntake n (ndrop pos data), ndrop (pos + n) data, pos + n)
   else Err ReadError.
 Proof.
-  intros Hp. unfold read_exact. rewrite nlen_ndrop, ndrop_ndrop.
+  intros Hp. rewrite read_exact_eq. rewrite nlen_ndrop, ndrop_ndrop.
   destruct (N.leb_spec n (nlen data - pos)) as [L|L];
     destruct (N.leb_spec (pos + n) (nlen data)) as [L2|L2]; try lia; reflexivity.
 Qed.
